@@ -308,6 +308,20 @@ Proof.
   - intros b2' b1' (tp & -> & HR'). apply simr_ok. prj2. apply HR'.
 Qed.
 
+(* the same for wb_into_lines_markers: the leftover markers of the two runs are EQUAL (the
+   unfinished line is not touched by the two options) *)
+Lemma wb_into_lines_markers_sim b2 b1 :
+  Rel b2 b1 ->
+  simr (fun lm2 lm1 => Forall2 LR (fst lm2) (fst lm1) /\ snd lm2 = snd lm1)
+       (wb_into_lines_markers b2) (wb_into_lines_markers b1).
+Proof.
+  intros HR. unfold wb_into_lines_markers, wb_flush.
+  eapply simr_bind with (Q := Rel).
+  - eapply simr_bind with (Q := Rel); [apply flush_word_sim, HR|].
+    intros b2' b1' HR'. apply flush_line_sim, HR'.
+  - intros b2' b1' (tp & -> & HR'). apply simr_ok. prj2. split; [apply HR'|reflexivity].
+Qed.
+
 Lemma wb_new_Rel : Rel (wb_new W pad2 ovf2) (wb_new W pad1 ovf1).
 Proof.
   exists []. split; [reflexivity|]. unfold RR, wb_new. prj2. repeat split. constructor.
